@@ -209,7 +209,10 @@ func runSet(run *report.Run, s setSpec, scratch string) {
 			case "cdp":
 				st.cdp = []string{url}
 			}
-			chk, err := l2.Start(opts)
+			leaf := func(serial *big.Int) []*x509.Certificate { return w.Leaf(serial, st.cdp, nil) }
+			probe0 := leaf(st.l0) // issued before Provision so that nothing delays the first question
+			// no waiting for the first update pass here: "in force by the time provisioning returns"
+			chk, err := l2.StartNoWait(opts)
 			if err != nil {
 				st.err = "provision: " + err.Error()
 				return
@@ -217,10 +220,9 @@ func runSet(run *report.Run, s setSpec, scratch string) {
 			st.chk = chk
 			st.provisionT = now()
 			defer chk.Stop()
-			leaf := func(serial *big.Int) []*x509.Certificate { return w.Leaf(serial, st.cdp, nil) }
 			// configured CRLs are in force when Provision returns
 			if is.Source != "cdp" {
-				rev, err := chk.C.IsRevoked(leaf(st.l0)[0], [][]*x509.Certificate{leaf(st.l0)})
+				rev, err := chk.C.IsRevoked(probe0[0], [][]*x509.Certificate{probe0})
 				switch {
 				case err != nil:
 					st.immediate = "error: " + err.Error()
